@@ -55,7 +55,7 @@ KeepCtl == UNCHANGED <<tid, fin, drifted>>
 (***************************************************************************)
 MonUpdate ==
     CASE E.e = "Add"  -> /\ mon' = Append(mon, [lvl |-> E.lvl, idx |-> E.idx, f |-> E.f, c |-> E.c,
-                                               slvl |-> E.slvl, s |-> E.s])
+                                               slvl |-> E.slvl, s |-> E.s, xf |-> E.xf, xc |-> E.xc])
                          /\ UNCHANGED <<mNs, mConv, mLost>>
       [] E.e = "Ns"   -> mNs' = E.ret /\ UNCHANGED <<mon, mConv, mLost>>
       [] E.e = "Crit" -> mConv' = (IF E.ret THEN "T" ELSE "F") /\ UNCHANGED <<mon, mNs, mLost>>
@@ -126,6 +126,12 @@ V_SamplesGenuine ==
     /\ \A i \in 1..Len(mon) : /\ mon[i].s >= 1 /\ mon[i].f = mon[i].s /\ mon[i].slvl = mon[i].lvl
                               /\ mon[i].c = (IF mon[i].lvl = 0 THEN 0 ELSE CoarseOf(mon[i].s))
     /\ \A i, j \in 1..Len(mon) : i # j => mon[i].s # mon[j].s
+    \* the control variates (calls struck at 3, 7, ..) are evaluated on the sample's own fine and coarse paths
+    /\ \A i \in 1..Len(mon) : \A j \in 1..Len(mon[i].xf) :
+          LET K == 3 + 4 * (j - 1)
+              call(x) == IF x > K THEN x - K ELSE 0
+          IN /\ mon[i].xf[j] = call(mon[i].f)
+             /\ mon[i].xc[j] = (IF mon[i].lvl = 0 THEN 0 ELSE call(mon[i].c))
 \* C05: the arrays hold exactly those samples, each once at its own index (no placeholder, no overwrite)
 V_RowsExact ==
     /\ Len(E.rows) >= NObs
